@@ -14,7 +14,7 @@ import (
 
 type intrinsic func(in *Interp, fn *ssa.Function, args []Value, site ssa.Instruction) (Value, bool)
 
-var intrinsicTable map[string]intrinsic
+var intrinsicTable = map[string]intrinsic{}
 
 func lookupIntrinsic(fn *ssa.Function, name string) intrinsic {
 	if h, ok := intrinsicTable[name]; ok {
@@ -133,7 +133,7 @@ func init() {
 		},
 	}
 
-	intrinsicTable = map[string]intrinsic{}
+
 	un := func(name string, f func(float64) float64) {
 		intrinsicTable["math."+name] = func(in *Interp, fn *ssa.Function, a []Value, s ssa.Instruction) (Value, bool) {
 			x := in.term(a[0])
